@@ -128,11 +128,19 @@ func c05Sparse(t *rapid.T) []kit.Argv {
 	}
 	b = append(b, name())
 	out = append(out, kit.A(b...))
-	for i := rapid.IntRange(0, 20).Draw(t, "cycles"); i > 0; i-- {
-		out = append(out, kit.A("SADD", "s1", "churn"), kit.A("SREM", "s1", "churn"))
+	for phase := rapid.IntRange(1, 4).Draw(t, "phases"); phase > 0; phase-- {
+		for i := churnCount(t); i > 0; i-- {
+			out = append(out, kit.A("SADD", "s1", "churn"), kit.A("SREM", "s1", "churn"))
+		}
+		out = append(out, c05SparseOps(t, a[2:])...)
 	}
+	return out
+}
+
+func c05SparseOps(t *rapid.T, members []string) []kit.Argv {
+	var out []kit.Argv
 	for i := rapid.IntRange(1, 3).Draw(t, "algs"); i > 0; i-- {
-		out = append(out, kit.A(pick(t, "alg", []string{"SINTER", "s1", "s2"}, []string{"SINTERSTORE", "dst", "s1", "s2"}, []string{"SDIFF", "s1", "s2"}, []string{"SDIFFSTORE", "dst", "s1", "s2"},
+		out = append(out, kit.A(pick(t, "alg", []string{"SREM", "s1", pick(t, "rm1", members...)}, []string{"SMEMBERS", "s1"}, []string{"SCARD", "s1"}, []string{"SMISMEMBER", "s1", members[0], members[len(members)-1]}, []string{"SINTER", "s1", "s2"}, []string{"SINTERSTORE", "dst", "s1", "s2"}, []string{"SDIFF", "s1", "s2"}, []string{"SDIFFSTORE", "dst", "s1", "s2"},
 			[]string{"SINTER", "s1", "s2", "s1"}, []string{"SUNION", "s1", "s2"}, []string{"SINTERCARD", "2", "s1", "s2"}, []string{"SINTERSTORE", "s1", "s1", "s2"})...))
 	}
 	return out
